@@ -6,7 +6,11 @@ var rtModule = Module{Dir: "runtime", Patterns: []string{"./internal/runtime"}}
 
 func init() {
 	PropConfigs["C03"] = &PropConfig{ID: "C03", Modules: []Module{rtModule}, Specs: []string{"common.smt2"}, Extra: c03CompilerGoals}
-	PropConfigs["C11"] = &PropConfig{ID: "C11", Modules: []Module{{Dir: "runtime", Patterns: []string{"./internal/lib/runtime"}}}, Specs: []string{"common.smt2"}}
+	PropConfigs["C11"] = &PropConfig{ID: "C11", Modules: []Module{{Dir: "runtime", Patterns: []string{"./internal/lib/runtime"}}}, Specs: []string{"common.smt2"}, Post: c11Schedules,
+		Undecided: []string{
+			"liveness (admission of waiters, wake-ups) beyond the safety formulations in the contracts: bounded schedule exploration only (at most 4 threads, capped enumeration)",
+			"go-statement lowering, atomics lowering tables and the hardware/LLVM memory model; sync.Mutex/RWMutex/WaitGroup/Once code of the standard library itself",
+		}}
 	PropConfigs["C06"] = &PropConfig{ID: "C06", Modules: []Module{rtModule}, Specs: []string{"common.smt2"}, Post: c06MapBounded,
 		Undecided: []string{
 			"the finite-map refinement of mapassign/mapaccess/mapdelete/mapclear/evacuate/mapiternext beyond the stated bound (bounded stand-in only: uint64 keys and values, no indirect keys/elems, no NaN keys)",
